@@ -45,6 +45,7 @@ Local Open Scope N_scope.
 Definition Known_C13 (t : Redirect.token) (last : bool) : bool :=
   tag_eqb (fst t) TNone &&
   (has_char c_gt (snd t) || str_eqb (snd t) [c_pipe] || str_eqb (snd t) s_lt || str_eqb (snd t) s_lt3
+   || att_lt (TNone, snd t)           (* /repo 543507e: an unquoted value <file becomes < file: class untagged_lt_file *)
    || (last && str_eqb (snd t) [c_amp])).
 
 (* ------------------------------------------------------------------ double quotes: full *)
